@@ -17,6 +17,7 @@ through an `Iface W`), extended with what this code needs:
   container has one owner, which the translator checks syntactically);
 * SQL expression values (`Sql`): what `cls.q.id == other.q.id`, `parent.q.childName == name`, `getattr(cls.q, name) ==
   value`, `sqlbuilder.AND(a, b)`, `sqlbuilder.IN(cls.q.id, ids)`, `reduce(sqlbuilder.AND, list[, init])` build;
+* `x.update(dict([(k, v) for (a, b) in it if c]))` on a dict local (`updatePairs`);
 * `e1 or e2` as a VALUE, `str(e)`, `getattr(e, name[, default])`;
 * PURE calls (module functions / methods that only read: `tablesUsedSet(clause, db)`, `classregistry.registry(r)`,
   `r.allClasses()`, `findClass(name, registry)`, `klass.select(…)` building a select object, `dbconn.queryForSelect`) go
@@ -322,6 +323,8 @@ inductive Stmt where
   | setAdd (x : Nat) (e : Expr)                              -- `x.add(e)`
   | setUpdate (x : Nat) (e : Expr)                           -- `x.update(e)`
   | append (x : Nat) (e : Expr)                              -- `x.append(e)`
+  /-- `x.update(dict([(k, v) for (a, b) in it if c]))`, dict local `x`; `a`, `b` are the comprehension's own variables -/
+  | updatePairs (x a b : Nat) (it : Expr) (c : Cond) (k v : Expr)
   | attrSetItem (obj : Expr) (path : List String) (k v : Expr)   -- `obj.a[k] = v`
   | attrDelItem (obj : Expr) (path : List String) (k : Expr)     -- `del obj.a[k]` (dict)
   | attrDelIdx (obj : Expr) (path : List String) (n : Nat)       -- `del obj.a[n]` (list)
@@ -560,6 +563,16 @@ def tryRes {W : Type} (r : Res W) (pat : ExcPat) (handler : Exc → St W → Res
   | .exc st' e => if pat.catches e then handler e st' else .exc st' e
   | r => r
 
+/-- `dict([(k, v) for (a, b) in l if c])` merged into the dict value `d`, entry by entry; the comprehension's
+    variables live in a scratch environment -/
+def updPairs {W : Type} (I : Iface W) (w : W) (env : Env) (a b : Nat) (c : Cond) (k v : Expr) : List Val → Val → R Val
+  | [], d => .ok d
+  | .pair p q :: l, d =>
+    (c.eval I w ((env.put a p).put b q)).bind fun t =>
+      if t then (eval2 I w ((env.put a p).put b q) k v).bind fun kv => updPairs I w env a b c k v l (vdSet kv.1 kv.2 d)
+      else updPairs I w env a b c k v l d
+  | _ :: _, _ => .stuck
+
 mutual
 def Stmt.exec {W : Type} (I : Iface W) (cur : Option Exc) (st : St W) : Stmt → Res W
   | .assign x e => withR st (e.eval I st.w st.env) fun v => .norm (st.setVar x v)
@@ -571,6 +584,9 @@ def Stmt.exec {W : Type} (I : Iface W) (cur : Option Exc) (st : St W) : Stmt →
   | .setAdd x e => withList st x fun d => withR st (e.eval I st.w st.env) fun v => .norm (st.setVar x (vsAdd v d))
   | .setUpdate x e => withList st x fun d => withR st (e.eval I st.w st.env) fun v =>
       if isListVal v then .norm (st.setVar x (vsUpdate d v)) else .stuck
+  | .updatePairs x a b it c k v => withList st x fun d => withR st (it.eval I st.w st.env) fun itv =>
+      withR st (R.ofOpt itv.toList) fun l => withR st (updPairs I st.w st.env a b c k v l d) fun d' =>
+        .norm (st.setVar x d')
   | .append x e => withList st x fun d => withR st (e.eval I st.w st.env) fun v => .norm (st.setVar x (vlAppend v d))
   | .attrSetItem obj path k v => withR st (obj.eval I st.w st.env) fun o => withR st (I.attrOf st.w o path) fun d =>
       withR st (eval2 I st.w st.env k v) fun p =>
